@@ -12,7 +12,9 @@ def _ind(lines, n):
     out = []
     for l in lines:
         for phys in l.split("\n"):
-            out.append(pad + phys if phys else phys)
+            # a line marked with NUL stays at column 0 however deeply its statement is nested (legal inside brackets
+            # and triple-quoted strings); the marker is removed when the module text is assembled
+            out.append(phys if phys.startswith("\x00") else (pad + phys if phys else phys))
     return out
 
 
@@ -30,9 +32,13 @@ def gen_def(rng, depth, is_async=False, in_class=False):
     if rng.random() < 0.2:
         body = ['"""docstring of the function"""'] + body
     out = decos + [head] + _ind(body, 1)
-    if rng.random() < 0.15:
-        # the definition's last physical line ends LEFT of the column of its `def`
-        out += _ind(["tail = (1,", "2"], 1) + [")"] if depth == 0 else _ind(["tail = '''text"], 1) + ["'''"]
+    if rng.random() < 0.25:
+        # the definition's last physical line ends LEFT of the column of its `def` (a closing bracket or the end of a
+        # triple-quoted string at column 0 inside a nested / indented definition)
+        if rng.random() < 0.5:
+            out += _ind(["tail = (1,", "2"], 1) + ["\x00)"]
+        else:
+            out += _ind(["tail = '''text"], 1) + ["\x00'''"]
     return out
 
 
@@ -136,7 +142,7 @@ def gen_static_module(rng):
         extra = rng.choice(["\x0c", "\x0c", "# page\x0cbreak in a comment", "_jtv_odd = 'a\x1cb\x85c\u2028d\u2029e\x0bf'", "# nel\x85 and ls\u2028 in a comment"])
         if all(not (l.startswith(" ") or l.startswith("\t")) for l in lines[k : k + 1]) and not (k > 0 and lines[k - 1].rstrip().endswith((":", "\\", ","))) and not (k > 0 and lines[k - 1].startswith("@")):
             lines = lines[:k] + [extra] + lines[k:]
-    src = "\n".join(lines) + "\n"
+    src = ("\n".join(lines) + "\n").replace("\x00", "")
     if rng.random() < 0.1:
         src = src.replace("    ", "\t")
     return src
@@ -236,4 +242,4 @@ def gen_runnable_module(rng):
     if rng.random() < 0.3:
         L += ["print(make_local(1))"]
     L += ["print(deep(3))"]
-    return "\n".join(L) + "\n"
+    return ("\n".join(L) + "\n").replace("\x00", "")
